@@ -52,7 +52,9 @@ static bool run_fz(const FzCase &c, std::string &why) {
   for (int call = 0; call < ((c.flags & 2) ? 2 : 1) && ok; call++) {
     int rc, cnt = 0;
     if (c.mode == 2) { std::vector<char> w(c.text.begin(), c.text.end()); w.push_back(0); rc = (c.flags & 4) ? assemble_string_counting_chunks(a, w.data(), c.chunk, &cnt) : asm_assemble_string_counting_chunks(a, w.data(), c.chunk, &cnt); }
-    else rc = (c.flags & 4) ? assemble_str(a, c.text.c_str()) : asm_assemble_str(a, c.text.c_str());
+    else { // const char * entry points: every other case passes the text in read-only memory that ends with its NUL in front of an inaccessible page
+      std::unique_ptr<al::RoText> ro; const char *tp = c.text.c_str(); if ((c.text.size() + c.start) % 2 == 0) { ro.reset(new al::RoText(c.text.c_str())); if (ro->p) tp = ro->p; }
+      rc = (c.flags & 4) ? assemble_str(a, tp) : asm_assemble_str(a, tp); }
     int off = asm_get_offset(a);
     if (rc != 0 && rc != 1) { ok = false; why = "return value " + std::to_string(rc); }
     if (ok && rc == 0 && (off < start || (!c.internal && off > c.n))) { ok = false; why = "offset " + std::to_string(off) + " outside the buffer"; }
